@@ -242,10 +242,16 @@ class BackedView(View):
         return self._backing
 
     def set_backing(self, value):
+        previous = self._backing
         self._backing = value
         # Propagate up the change if the view is hooked to a super view
         if self._hook is not None:
-            self._hook(self)
+            try:
+                self._hook(self)
+            except Exception:
+                # the super view refused the change (e.g. this view's position no longer exists): nothing changed
+                self._backing = previous
+                raise
 
 
 BV = TypeVar('BV', bound="BasicView")
